@@ -6,6 +6,9 @@
 // on a real *os.File on tmpfs. Compared after every operation: bytes
 // returned, byte counts, size, offset, full content. Error values are NOT
 // compared (io.EOF placement differs by design and is not in the statement).
+// store.go adds the start states of a memory.File: histories of the store
+// itself (create / complete / evict by capacity / delete / open / create
+// again), every live blob compared with its own file after every operation.
 package main
 
 import (
@@ -50,18 +53,20 @@ type writer interface {
 
 // params is the alphabet of one search.
 type params struct {
-	kind  string // "brw" | "mem" | "rdr"
+	kind  string // "brw" | "mem" | "rdr" | "sto" (a blob of a store with a history, see store.go)
 	cap0  int    // initial capacity (brw, mem)
 	fixed string // fixed content (rdr)
 	wlens []int  // payload lengths of Write / WriteAt
 	neg   bool   // include the rejected offset -1 for WriteAt / ReadAt
 	small bool   // reduced offset / length / seek alphabet (deeper searches)
+	tiny  bool   // minimal per-blob alphabet of the store-history searches (store.go)
 }
 
 var labels = map[string]string{
 	"brw": "base.BufferReadWriter",
 	"mem": "memory.File",
 	"rdr": "store.NewBufferFileReader",
+	"sto": "memory.File in a used memory.Store",
 }
 
 type sys struct {
@@ -73,6 +78,9 @@ type sys struct {
 	brw *base.BufferReadWriter
 	mf  *memory.File
 	ms  *memory.Store
+	// memKey is the blob's key in ms; start says in which kind of store state
+	// the blob was created (store-history searches; part of the coverage classes)
+	memKey, start string
 
 	steps int // operations applied so far
 	// expected size / offset of the file by POSIX rules. Used only to build the
@@ -152,7 +160,7 @@ func newSys(p params) (*sys, error) {
 			f.Close()
 			return nil, err
 		}
-		s.ms, s.mf = ms, mf
+		s.ms, s.mf, s.memKey = ms, mf, memKey
 		s.r, s.w = mf, mf
 	case "rdr":
 		if _, err := f.Write([]byte(p.fixed)); err != nil {
@@ -210,6 +218,9 @@ func uniq(vs []int64, min int64) []int64 {
 // offsets of positional operations, relative to the current size.
 func (s *sys) offsets() []int64 {
 	n := s.size
+	if s.p.tiny {
+		return uniq([]int64{0, n + 1}, 0)
+	}
 	if s.p.small {
 		return uniq([]int64{0, n - 1, n, n + 2}, 0)
 	}
@@ -218,6 +229,9 @@ func (s *sys) offsets() []int64 {
 
 func (s *sys) readLens() []int64 {
 	n := s.size
+	if s.p.tiny {
+		return []int64{n + 2}
+	}
 	if s.p.small {
 		return uniq([]int64{1, n + 2}, 0)
 	}
@@ -226,7 +240,23 @@ func (s *sys) readLens() []int64 {
 
 func (s *sys) Ops() []string {
 	level.Store(int64(s.steps))
+	return s.ops()
+}
+
+// ops is the alphabet enabled in the current state of this buffer.
+func (s *sys) ops() []string {
 	var ops []string
+	if s.p.tiny {
+		for _, n := range s.p.wlens {
+			ops = append(ops, fmt.Sprintf("Write(%d)", n))
+		}
+		for _, n := range s.p.wlens {
+			for _, o := range s.offsets() {
+				ops = append(ops, fmt.Sprintf("WriteAt(%d,%d)", n, o))
+			}
+		}
+		return append(ops, fmt.Sprintf("Read(%d)", s.size+2), fmt.Sprintf("ReadAt(%d,0)", s.size+2), "Seek(0,0)")
+	}
 	if s.w != nil {
 		for _, n := range s.p.wlens {
 			ops = append(ops, fmt.Sprintf("Write(%d)", n))
@@ -334,11 +364,16 @@ func parse(op string) (name string, a, b int64, ok bool) {
 }
 
 func (s *sys) Apply(op string) error {
+	return s.apply(op, forceObserve || int64(s.steps) == level.Load())
+}
+
+// apply executes op on the buffer and on the file; final: also observe and
+// compare the state the operation left (see the comment on level).
+func (s *sys) apply(op string, final bool) error {
 	name, a, b, ok := parse(op)
 	if !ok {
 		return fmt.Errorf("bad op %q", op)
 	}
-	final := forceObserve || int64(s.steps) == level.Load()
 	s.steps++
 	s.observed = false
 	size0, off0 := s.size, s.off
@@ -473,7 +508,7 @@ func (s *sys) Apply(op string) error {
 		case int64(rn) < a:
 			res = "short"
 		}
-		note(classKey{s.p.kind, class, grow, res}, gap, grow, cross)
+		note(classKey{s.p.kind, s.start, class, grow, res}, gap, grow, cross)
 		if err := s.observe(class); err != nil {
 			if _, ok := err.(*bfs.Fail); !ok {
 				return err
@@ -526,14 +561,14 @@ func (s *sys) observe(class string) error {
 				extra += fmt.Sprintf(" Bytes()=%q", bb)
 				bad = true
 			}
-		case "mem":
+		case "mem", "sto":
 			// capacity is not observable; it is max(cap0, size) by construction
 			// (growth allocates exactly the needed length, nothing shrinks)
 			if o := s.mf.Off(); o != ioff {
 				extra = fmt.Sprintf("Off()=%d", o)
 				bad = true
 			}
-			if sz, err := s.ms.Stat(memKey); err != nil || sz != isize {
+			if sz, err := s.ms.Stat(s.memKey); err != nil || sz != isize {
 				extra += fmt.Sprintf(" Stat()=%d,%v", sz, err)
 				bad = true
 			}
@@ -571,12 +606,15 @@ var (
 )
 
 type classKey struct {
-	kind, class string
-	grow        bool
-	res         string
+	kind, start, class string
+	grow               bool
+	res                string
 }
 
 func (k classKey) String() string {
+	if k.start != "" {
+		return fmt.Sprintf("%s[%s]|%s|grow=%v|%s", k.kind, k.start, k.class, k.grow, k.res)
+	}
 	return fmt.Sprintf("%s|%s|grow=%v|%s", k.kind, k.class, k.grow, k.res)
 }
 
@@ -604,6 +642,24 @@ type search struct {
 	name  string
 	p     params
 	depth int
+	sto   *stoParams // store-history search (store.go) instead of a single-buffer one
+}
+
+func (sc search) mk() func() (bfs.System, error) {
+	if sc.sto != nil {
+		p := *sc.sto
+		return func() (bfs.System, error) { return newSto(p) }
+	}
+	p := sc.p
+	return func() (bfs.System, error) { return newSys(p) }
+}
+
+// family is the name without the tier-dependent depth suffix.
+func family(name string) string {
+	if i := strings.LastIndex(name, " depth="); i >= 0 {
+		return name[:i]
+	}
+	return name
 }
 
 const smallDepth = 6
@@ -618,10 +674,18 @@ func main() {
 		"off in {0,1,size-1,size,size+1,size+3} (+ rejected -1), n in {0,1,size,size+2}, seeks to targets inside [0,size] via all three whence values " +
 		"(thorough adds deeper searches over a reduced alphabet: |p| in {0,1,3}, off in {0,size-1,size,size+2}, n in {1,size+2}); " +
 		"every transition executed on the real buffer and on a real *os.File (tmpfs), compared on bytes returned, byte counts, size, offset and full content. " +
-		"distinct = distinct (buffer kind, operation geometry class, capacity growth, result class) combinations exercised."
+		"Start states of a memory.File other than 'only blob of a new store' (sto searches): (1) BFS to depth 6 (thorough 7) over histories of ONE real memory.Store of capacity 4 with keys {a,b,c}: " +
+		"Create(k,n) n in {2,4} (thorough {1,2,4}; evicts complete blobs by capacity or finds no room), Complete(k), Delete(k), Open(k) (new handle / the reference file opened again), " +
+		"per live blob Write(l), WriteAt(l,0), WriteAt(l,size+1) (gap), Read(size+2), ReadAt(size+2,0), Seek(0,start) with l in {1,3}, and Write(2)/WriteAt(2,0) through the handle of the blob that died last; " +
+		"after every operation EVERY live blob is compared with its own os.File (a created blob with a new empty file); dedup key = all live blobs (status, reserved size, content, offset) + touch order of complete blobs + " +
+		"(reserved size, status, content) of every dead blob in order of death. (2) the full single-buffer alphabet to depth 3 (thorough 4) on a blob created after each of 36 prologues: " +
+		"first blob reserved 2|4, left empty | filled exactly | filled beyond its reserved size, then evicted by capacity | deleted, new blob reserved 2|4 under another key or (after Delete) the same key. " +
+		"distinct = distinct (buffer kind, start state of the blob, operation geometry class, capacity growth, result class) combinations exercised."
 	run.Assume("small-scope: payload lengths, offsets and read lengths from the stated alphabet; initial capacities {0,1,4}; single handle, single goroutine")
 	run.Assume("the reference is Go's *os.File over Linux tmpfs (O_RDWR, no O_APPEND); error values are not compared")
 	run.Assume("seeks are restricted to targets inside the written extent [0,size], as the statement says")
+	run.Assume("store histories: one memory.Store of capacity 4 bytes, at most 3 keys, one live handle per blob plus the last dead handle, single goroutine; which blob a Create evicts and when it finds no room is read back from the store (Has), not judged")
+	run.Assume("the contents of dead blobs are unobservable; they are kept in the dedup key so that histories differing only in what a recycled array / pooled buffer could carry over are not merged")
 	run.Assume("memory.File capacity is not observable through the API; it equals max(initial capacity, size) by construction, so (content, offset) determines the hidden state within one search")
 
 	if ok, err := onTmpfs(); err != nil {
@@ -634,7 +698,7 @@ func main() {
 	full := []int{0, 1, 2, 5}
 	depth, rdDepth := 4, 4
 	fixed := []string{"", "x", "pqrst"}
-	budget := 45 * time.Second
+	budget := 70 * time.Second
 	if run.Thorough() {
 		depth, rdDepth = 5, 8
 		fixed = append(fixed, "pq", "pqrstuvw")
@@ -643,37 +707,54 @@ func main() {
 	deadline := time.Now().Add(budget)
 	for _, c := range []int{0, 1, 4} {
 		for _, k := range []string{"brw", "mem"} {
-			searches = append(searches, search{fmt.Sprintf("%s cap=%d full depth=%d", k, c, depth), params{kind: k, cap0: c, wlens: full, neg: true}, depth})
+			searches = append(searches, search{name: fmt.Sprintf("%s cap=%d full depth=%d", k, c, depth), p: params{kind: k, cap0: c, wlens: full, neg: true}, depth: depth})
 		}
 	}
 	if run.Thorough() {
 		// deeper histories over a reduced alphabet
 		for _, c := range []int{0, 1, 4} {
 			for _, k := range []string{"brw", "mem"} {
-				searches = append(searches, search{fmt.Sprintf("%s cap=%d small depth=%d", k, c, smallDepth), params{kind: k, cap0: c, wlens: []int{0, 1, 3}, small: true}, smallDepth})
+				searches = append(searches, search{name: fmt.Sprintf("%s cap=%d small depth=%d", k, c, smallDepth), p: params{kind: k, cap0: c, wlens: []int{0, 1, 3}, small: true}, depth: smallDepth})
 			}
 		}
 	}
 	for _, fx := range fixed {
-		searches = append(searches, search{fmt.Sprintf("rdr len=%d full depth=%d", len(fx), rdDepth), params{kind: "rdr", fixed: fx, neg: true}, rdDepth})
+		searches = append(searches, search{name: fmt.Sprintf("rdr len=%d full depth=%d", len(fx), rdDepth), p: params{kind: "rdr", fixed: fx, neg: true}, depth: rdDepth})
 	}
+	histories, focused := storeSearches(run.Thorough())
+	searches = append(append(histories, searches...), focused...)
 
 	if rp := run.ReplayPath(); rp != "" {
 		replay(run, rp, searches)
 		return
 	}
 
+	// development aid: C12_ONLY=<prefix> runs only the searches whose name starts with it
+	only := os.Getenv("C12_ONLY")
+	if only != "" {
+		run.NotExhaustive("C12_ONLY=" + only + ": other searches skipped")
+		var keep []search
+		for _, sc := range searches {
+			if strings.HasPrefix(sc.name, only) {
+				keep = append(keep, sc)
+			}
+		}
+		searches = keep
+	}
 	for _, sc := range searches {
-		p := sc.p
 		level.Store(0)
-		rep.BFS(run, sc.name, bfs.Config{MaxDepth: sc.depth, Deadline: deadline, New: func() (bfs.System, error) { return newSys(p) }})
+		rep.BFS(run, sc.name, bfs.Config{MaxDepth: sc.depth, Deadline: deadline, New: sc.mk()})
 	}
 
 	var ks []string
 	ngap, ngrow, ncross := 0, 0, 0
+	stoGaps := map[string]int{} // classes of writes leaving a gap, per kind of start state of the blob
 	for k, f := range classes {
 		ks = append(ks, k.String())
 		run.Distinct(k.String())
+		if k.kind == "sto" && f[0] {
+			stoGaps[k.start]++
+		}
 		if f[0] {
 			ngap++
 		}
@@ -689,8 +770,16 @@ func main() {
 	run.Set("classes_writes_leaving_gap", ngap)
 	run.Set("classes_growth_beyond_capacity", ngrow)
 	run.Set("classes_reads_crossing_end", ncross)
+	run.Set("classes_gap_writes_by_start_state_of_blob", stoGaps)
 	if ngap == 0 || ngrow == 0 || ncross == 0 {
 		run.Fatal(errors.New("vacuous: no gap write / capacity growth / read crossing the end was exercised"))
+	}
+	if only == "" && run.NViolations() == 0 {
+		for _, st := range []string{"created by evicting", "created after a blob died", "created beside live blobs"} {
+			if stoGaps[st] == 0 {
+				run.Fatal(fmt.Errorf("vacuous: no write leaving a gap on a blob %s", st))
+			}
+		}
 	}
 	run.Finish()
 }
@@ -712,12 +801,11 @@ func replay(run *evid.Run, path string, searches []search) {
 	}
 	for _, sc := range searches {
 		// the depth suffix differs between tiers: match on kind + configuration + alphabet
-		if strings.Join(strings.Fields(sc.name)[:3], " ") != strings.Join(strings.Fields(rf.Case.Search)[:3], " ") {
+		if family(sc.name) != family(rf.Case.Search) {
 			continue
 		}
-		p := sc.p
 		forceObserve = true
-		err := bfs.Replay(bfs.Config{New: func() (bfs.System, error) { return newSys(p) }}, rf.Case.History)
+		err := bfs.Replay(bfs.Config{New: sc.mk()}, rf.Case.History)
 		run.Eval(len(rf.Case.History))
 		run.Distinct("replay")
 		run.Distinct("replay2")
